@@ -14,7 +14,18 @@ Streams
           junk) parsed by the real `FortranSourceFile`, every second chunk as a project with
           `lower: true`; a recorder around `line_to_variables` observes the masked line,
           `parent.strings` and the variables; compared with the model's `prepLine` / `declVarsOpt`.
-  e2e   : whole projects through `ford.main` (mixed-case sources; the project option `lower`
+  cleanup : generated modules / subroutines / functions with type declarations and attribute statements of
+          every kind (`intent(in) :: a`, `dimension a(n, *)`, `optional a`, `value`, `target`, `allocatable :: x(:)`,
+          `private`, `parameter (p = 1)`, `external`; several names per statement, names spelled differently at
+          each occurrence, undeclared names, dummy procedures with an interface block) parsed by the real
+          `FortranSourceFile`; the state of each unit before and after its `_cleanup` (variables, argument list,
+          result, attr_dict) is read off the real objects and compared with the model `runCleanup` run with the
+          step order that translate/c18.py regenerates from `_cleanup` of FortranCodeUnit / FortranProcedure /
+          FortranFunction.
+  e2e   : whole projects through `ford.main` (mixed-case sources; part of the attributes of module variables,
+          locals, dummy arguments and function results given by separate attribute statements before or after
+          the type declaration; functions with / without RESULT clause, typed in the FUNCTION statement or in
+          the body; a dummy procedure described by an interface block; the project option `lower`
           drawn per project; type declarations, BIND and PARAMETER statements); every page that
           shows declarations is compared with the page of the *neutral twin* project (every hot
           source text replaced by a harmless placeholder): property oracle = text equals the
@@ -102,6 +113,61 @@ def squeeze(s: str, fold: bool = False) -> str:
             if c == q:
                 q = None
     return "".join(out)
+
+
+def split_top(s: str, sep: str = ",") -> list[str]:
+    """split at `sep` outside parentheses / brackets and outside character literals"""
+    out, cur, lvl, q, i = [], [], 0, None, 0
+    while i < len(s):
+        c = s[i]
+        if q:
+            if c == q:
+                q = None
+        elif c in "'\"":
+            q = c
+        elif c in "([":
+            lvl += 1
+        elif c in ")]":
+            lvl -= 1
+        elif lvl == 0 and s.startswith(sep, i):
+            out.append("".join(cur))
+            cur = []
+            i += len(sep)
+            continue
+        cur.append(c)
+        i += 1
+    out.append("".join(cur))
+    return out
+
+
+def canon_row(text: str):
+    """order-free reading of a squeezed declaration row (`type,attr,...::name(dims)=init`) or result heading
+    (`returnvaluetype,attr,...`): (type, sorted attributes, entity).  Used where the attributes of an entity come
+    from several statements, so that no single source statement gives their order.  The shape may be said as
+    `dimension(X)`, as `allocatable(X)` / `pointer(X)` (the ALLOCATABLE / POINTER statement) or behind the name."""
+    sides = split_top(text, "::")
+    lhs, rhs = sides[0], ("::".join(sides[1:]) if len(sides) > 1 else None)
+    parts = split_top(lhs)
+    head, attrs, dims = parts[0], [], []
+    for a in parts[1:]:
+        m = re.fullmatch(r"(dimension|allocatable|pointer)(\(.*\))", a, re.S)
+        if m:
+            dims.append(m.group(2))
+            if m.group(1) != "dimension":
+                attrs.append(m.group(1))
+        elif re.fullmatch(r"\(.*\)", a, re.S):
+            dims.append(a)  # full_declaration of a result lists the shape as a part of its own
+        else:
+            attrs.append(a)
+    if rhs is not None:
+        m = re.match(r"\w+", rhs)
+        name, rest = (m.group(), rhs[m.end():]) if m else ("", rhs)
+        if rest.startswith("("):
+            d = split_top(rest, "=")[0]
+            dims.append(d)
+            rest = rest[len(d):]
+        rhs = name + "|" + rest
+    return head, tuple(sorted(attrs)), tuple(sorted(dims)), rhs
 
 
 # --------------------------------------------------------------------------
@@ -404,6 +470,263 @@ def decl_stream(ford, drv, rng, n, rep):
 
 
 # --------------------------------------------------------------------------
+# cleanup stream (attribute statements -> displayed variables, parse level)
+# --------------------------------------------------------------------------
+
+STMT_ATTRS = ["intent(in)", "intent(out)", "intent(inout)", "intent( in )", "optional", "value", "target", "volatile",
+              "asynchronous", "save", "pointer", "allocatable", "dimension", "public", "private", "protected", "external",
+              "parameter", "bind(c)", "contiguous"]
+CU_TYPES = ["integer", "real", "logical", "character(len=*)", "real(kind=dp)", "type(tt)", "complex", "double precision"]
+
+
+def gen_cleanup_unit(rng, idx):
+    """one module: variables, a subroutine and a function, each with type declarations in any spelling and
+    attribute statements of every kind (several names per statement, repeated statements for one name, names
+    that are declared twice, not at all, or are procedures of the unit)"""
+    u = f"cm{idx}"
+
+    def spell(nm):
+        return recase(rng, nm)
+
+    def statements(names, ctx):
+        out = []
+        for _ in range(rng.choice([0, 1, 2, 3, 4])):
+            a = rng.choice(STMT_ATTRS)
+            if ctx != "arg" and a.startswith(("intent", "optional", "value")) and rng.random() < 0.8:
+                a = rng.choice(["target", "save", "volatile", "dimension", "allocatable"])
+            if a == "contiguous":  # not an attribute statement FORD knows: stays an unrecognised line
+                a = "volatile"
+            ns = rng.sample(names, min(len(names), rng.choice([1, 1, 2, 3])))
+            if a in ("dimension", "allocatable", "pointer"):
+                ents = [spell(n) + rng.choice(["(2, 3)", "(:)", "(n, *)", "(0:n)", "( : , : )", "(size(x))"] if a == "dimension"
+                                              or rng.random() < 0.6 else [""]) for n in ns]
+            else:
+                ents = [spell(n) for n in ns]
+            if a == "parameter":
+                out.append(recase(rng, "parameter") + rng.choice([" (", "("]) + ", ".join(
+                    f"{e} = {rng.choice(['1', '2.5', 'n + 1', '(/1, 2/)', 'max(1, 2)'])}" for e in ents) + ")")
+                continue
+            kw = recase(rng, a)
+            out.append(kw + rng.choice([" :: ", " ", "::", " ::", "  "]) + rng.choice([", ", ",", " , "]).join(ents))
+        return out
+
+    def declare(names, ctx):
+        """type declarations for most of the names (a few stay undeclared, one may be declared twice)"""
+        out = []
+        pool = list(names)
+        while pool:
+            k = rng.choice([1, 1, 2])
+            grp, pool = pool[:k], pool[k:]
+            if rng.random() < 0.15:
+                continue  # undeclared: implicitly typed argument / a statement about a name FORD never sees
+            attrs = rng.sample(["target", "save", "dimension(4)", "allocatable", "pointer", "optional", "intent(in)", "intent(out)",
+                                "private", "protected", "external", "volatile"], rng.choice([0, 0, 1, 2]))
+            if ctx != "arg":
+                attrs = [a for a in attrs if not a.startswith(("intent", "optional"))]
+            ents = [spell(n) + rng.choice(["", "", "", "(3)", "(2, 2)", "*8"]) for n in grp]
+            out.append(recase(rng, rng.choice(CU_TYPES)) + "".join(", " + recase(rng, a) for a in attrs) + " :: " + ", ".join(ents))
+        return out
+
+    def mix(a, b):
+        """attribute statements before, between and after the declarations"""
+        lines = list(a)
+        for x in b:
+            lines.insert(rng.randint(0, len(lines)), x)
+        return lines
+
+    L = [f"module {u}"]
+    gv = [f"g{idx}v{j}" for j in range(rng.randint(1, 4))]
+    sname, fname = f"s{idx}q", f"f{idx}q"
+    body = mix(declare(gv, "module"), statements(gv + ([sname, fname] if rng.random() < 0.4 else []), "module"))
+    L += ["  " + x for x in body]
+    L.append("contains")
+    # subroutine
+    args = [f"{rng.choice('aikxn')}{idx}a{j}" for j in range(rng.randint(0, 4))]
+    loc = [f"l{idx}c{j}" for j in range(rng.randint(0, 2))]
+    L.append(f"  {recase(rng, 'subroutine')} {sname}(" + ", ".join(spell(a) for a in args) + ")")
+    sb = declare(args, "arg") + declare(loc, "local")
+    if args and rng.random() < 0.2:
+        d = rng.choice(args)  # a dummy procedure described by an interface block
+        sb = [x for x in sb if d.lower() not in x.lower()]
+        sb += ["interface", f"  subroutine {spell(d)}(z)", "    real z", f"  end subroutine {d}", "end interface"]
+    st = statements(args + loc if args + loc else ["zz"], "arg")
+    if any(l == "interface" for l in sb):
+        L += ["    " + x for x in st + sb] if rng.random() < 0.5 else ["    " + x for x in sb + st]
+    else:
+        L += ["    " + x for x in mix(sb, st)]
+    L.append(f"  end subroutine {sname}")
+    # function
+    fargs = [f"{rng.choice('bjmy')}{idx}b{j}" for j in range(rng.randint(0, 3))]
+    form = rng.choice(["result", "result", "name", "typed", "typed-result"])
+    res = f"r{idx}r" if form in ("result", "typed-result") else fname
+    head = (recase(rng, rng.choice(["real", "integer", "logical", "real(kind=dp)"])) + " " if form.startswith("typed") else "") \
+        + f"{recase(rng, 'function')} {fname}(" + ", ".join(spell(a) for a in fargs) + ")" \
+        + (f" {recase(rng, 'result')}({spell(res)})" if form in ("result", "typed-result") else "")
+    L.append("  " + head)
+    fb = declare(fargs, "arg")
+    if not form.startswith("typed") and rng.random() < 0.9:
+        fb += declare([res], "local")
+    L += ["    " + x for x in mix(fb, statements(fargs + [res], "arg"))]
+    L.append(f"  end function {fname}")
+    L.append(f"end module {u}")
+    return L, {"module": u, "sub": sname, "func": fname}
+
+
+_ITEM_PROBE: dict = {}
+
+
+def probe_item_attr_tolerant() -> bool:
+    """Variant of the code, decided by probing it: does `process_attribs` accept an attribute other than a
+    visibility / BIND for an entry of an interface block (`optional :: cb`), or does it raise AttributeError
+    (finding C18-attribute-statement-on-interface-procedure; repaired by fixes/C18-attribute-statement-on-interface-procedure.diff)?"""
+    if "v" not in _ITEM_PROBE:
+        import ford.sourceform as sf
+        from ford.settings import ProjectSettings
+
+        src = ("subroutine zprobe(cb)\n  interface\n    subroutine cb(z)\n      real z\n    end subroutine cb\n"
+               "  end interface\n  optional :: cb\nend subroutine zprobe\n")
+        with common.scratch_dir() as d:
+            (d / "zprobe.f90").write_text(src)
+            try:
+                with common.quiet():
+                    sf.FortranSourceFile(str(d / "zprobe.f90"), ProjectSettings())
+                _ITEM_PROBE["v"] = True
+            except AttributeError:
+                _ITEM_PROBE["v"] = False
+    return _ITEM_PROBE["v"]
+
+
+def cleanup_stream(ford, drv, rng, n, rep, steps):
+    """real `_cleanup` of modules / subroutines / functions (state before and after observed on the real objects)
+    against the model `runCleanup` with the step order regenerated from the source"""
+    import ford.sourceform as sf
+    from ford.settings import ProjectSettings
+
+    rec = {}
+    tolerant = probe_item_attr_tolerant()
+
+    def var_rec(v):
+        return [v.name, v.full_type, v.permission or "", v.intent or "", "1" if v.optional else "0", "1" if v.parameter else "0",
+                v.dimension or "", "N" if v.initial is None else "S" + str(v.initial), str(len(v.attribs)), *[str(a) for a in v.attribs]]
+
+    def slot_rec(x):
+        if isinstance(x, str):
+            return ["n", x]
+        if isinstance(x, sf.FortranVariable):
+            return ["v"] + var_rec(x)
+        return ["p", getattr(x, "name", "?")]
+
+    def snapshot(obj, kind):
+        req = [kind]
+        args = list(getattr(obj, "args", [])) if kind != "unit" else []
+        req += [str(len(args)), *[a if isinstance(a, str) else "?" for a in args]]
+        ret = getattr(obj, "retvar", None) if kind == "func" else None
+        req.append("N" + ret if isinstance(ret, str) else "-")
+        ifs = [i.procedure.name for i in obj.interfaces if not (i.abstract or i.generic)] if kind != "unit" else []
+        req += [str(len(ifs)), *ifs]
+        items = [("1" if hasattr(it, "attribs") or tolerant else "0") + it.name.lower()
+                 for it in obj.iterator("functions", "subroutines", "types", "interfaces", "absinterfaces")]
+        req += [str(len(items)), *items]
+        d = [(k, list(v)) for k, v in obj.attr_dict.items()]
+        req.append(str(len(d)))
+        for k, v in d:
+            req += [k, str(len(v)), *v]
+        ps = list(obj.param_dict.items())
+        req.append(str(len(ps)))
+        for k, v in ps:
+            req += [k, v]
+        req.append(str(len(obj.variables)))
+        for v in obj.variables:
+            req += var_rec(v)
+        keys = {k for k, v in d if v}
+        return req, isinstance(ret, str), (sum(len(v) for _, v in d), sum(isinstance(a, str) and a.lower() in keys for a in args))
+
+    def observe(obj, kind, ret_named):
+        args = list(getattr(obj, "args", [])) if kind != "unit" else []
+        out = ["ok", str(len(args))]
+        for a in args:
+            out += slot_rec(a)
+        out += slot_rec(obj.retvar) if ret_named else ["-"]
+        out.append(str(len(obj.variables)))
+        for v in obj.variables:
+            out += ["v"] + var_rec(v)
+        return out
+
+    def make(orig, kind):
+        def wrapped(self):
+            try:
+                req, ret_named, nattr = snapshot(self, kind)
+            except Exception as e:  # the abstraction cannot read FORD's objects any more
+                rec[(kind, self.name.lower())] = ("unreadable", f"{type(e).__name__}: {e}", (0, 0))
+                return orig(self)
+            try:
+                orig(self)
+                rec[(kind, self.name.lower())] = (req, observe(self, kind, ret_named), nattr)
+            except Exception as e:  # the error is the observation; the other units of the file are still parsed
+                rec[(kind, self.name.lower())] = (req, ["err", "attribute-error" if isinstance(e, AttributeError) else type(e).__name__], nattr)
+        return wrapped
+
+    targets = [(sf.FortranSubroutine, "proc"), (sf.FortranFunction, "func"), (sf.FortranModule, "unit")]
+    saved = [(cls, cls.__dict__.get("_cleanup")) for cls, _ in targets]
+    units = [gen_cleanup_unit(rng, i) for i in range(n)]
+    hist = {"units": 0, "procedures": 0, "functions": 0, "with_statement_attributes": 0, "statement_attributes": 0,
+            "arguments": 0, "arguments_with_statement_attributes": 0, "results_named": 0, "raised": 0}
+    chunk = 40
+    with common.scratch_dir() as d:
+        for cls, kind in targets:
+            setattr(cls, "_cleanup", make(getattr(cls, "_cleanup"), kind))
+        try:
+            for c0 in range(0, n, chunk):
+                p = d / f"c{c0}.f90"
+                p.write_text("".join("\n".join(L) + "\n" for L, _ in units[c0:c0 + chunk]))
+                with common.quiet():
+                    try:
+                        sf.FortranSourceFile(str(p), ProjectSettings())
+                    except Exception as e:  # noqa
+                        rep.tie_broken(f"cleanup stream: real parser raised: {type(e).__name__}: {e}",
+                                       {"stream": "cleanup", "file": p.read_text()[:4000]})
+        finally:
+            for cls, old in saved:
+                if old is None:
+                    delattr(cls, "_cleanup")
+                else:
+                    setattr(cls, "_cleanup", old)
+    keys, reqs = [], []
+    for i, (L, nm) in enumerate(units):
+        for kind, name in (("unit", nm["module"]), ("proc", nm["sub"]), ("func", nm["func"])):
+            r = rec.get((kind, name.lower()))
+            if r is None:
+                rep.tie_broken(f"cleanup stream: _cleanup of {kind} {name} was not observed (the unit was not parsed as generated)",
+                               {"stream": "cleanup", "source": L})
+                continue
+            if r[0] == "unreadable":
+                rep.tie_broken(f"cleanup stream: cannot read the state of {kind} {name}: {r[1]}", {"stream": "cleanup", "source": L})
+                continue
+            keys.append((i, kind, name))
+            reqs.append(["c18.cleanup"] + r[0])
+    got = drv.batch(reqs)
+    bad = 0
+    for (i, kind, name), rq, g in zip(keys, reqs, got):
+        _, e, (nattr, nargattr) = rec[(kind, name.lower())]
+        hist["arguments_with_statement_attributes"] += nargattr
+        hist["units"] += kind == "unit"
+        hist["procedures"] += kind == "proc"
+        hist["functions"] += kind == "func"
+        hist["with_statement_attributes"] += nattr > 0
+        hist["statement_attributes"] += nattr
+        hist["raised"] += e[0] == "err"
+        if kind != "unit" and e[0] == "ok":
+            hist["arguments"] += int(e[1])
+        if kind == "func" and rq[3 + int(rq[2])].startswith("N"):
+            hist["results_named"] += 1
+        if g != e:
+            bad += 1
+            rep.tie_broken(f"correspondence cleanup/{kind} (steps {steps.get(kind)}): model {g!r} vs implementation {e!r} for {name}",
+                           {"stream": "cleanup", "kind": kind, "name": name, "source": units[i][0], "request": rq, "impl": e, "model": g})
+    return len(reqs), bad, hist
+
+
+# --------------------------------------------------------------------------
 # e2e stream
 # --------------------------------------------------------------------------
 
@@ -469,7 +792,15 @@ class ProjGen:
         self.hots: list[Hot] = []
         self.n = 0
         self.cur_mod = 0
-        self.expect: list[tuple[str, str]] = []  # (page, what an item of that page must say; with hot markers)
+        # (page, what an item of that page must say; with hot markers, mode, tags):
+        #   mode "exact": the row text as FORD lays it out (type, visibility / intent, optional, parameter, attributes)
+        #   mode "canon": the entity receives attributes from separate attribute statements; the order of the
+        #                 attributes is then not given by one source statement: compared as type + set of attributes,
+        #                 `dimension(X)` and `name(X)` read as the same (see canon_row)
+        self.expect: list[tuple[str, str, str, frozenset]] = []
+        self.stmt_hist: dict[str, int] = {}  # attribute statements generated, by context:attribute
+        self.stmt_decls: list[tuple] = []    # (context, attributes given by statements) per such declaration
+        self.drop_tags: dict[int, set] = {}  # module number -> classes of inputs on which FORD gives up on the file
 
     def hot(self, site, text, literal=False):
         self.n += 1
@@ -482,6 +813,12 @@ class ProjGen:
     def kw(self, s):
         """a keyword / non-hot name in one of the usual spellings (same in the twin)"""
         return recase(self.rng, s)
+
+    def respell(self, name):
+        """another occurrence of a name (argument list, attribute statement): Fortran names are case-insensitive,
+        each occurrence may be spelled differently from the declaration"""
+        r = self.rng.random()
+        return name if r < 0.6 else (name.upper() if r < 0.8 else name.lower())
 
     def shown(self, h):
         """what the page must show for a hot source text: the text itself; with the option `lower`
@@ -524,6 +861,10 @@ class ProjGen:
         r = rng.random()
         if r < 0.75:
             return self.kw(rng.choice(["2,3", "3", ":", "n, m", "0:n", "2"]))
+        if site == "dimstmt":
+            # the names and array specs of a DIMENSION statement are code and FORD keeps them lower-cased
+            # whatever the option `lower` says; letter case of code is not part of what a declaration says
+            return self.hot(site, rng.choice(["merge(2,3,k<l)", "n>m", "2*n, 3", "size(a)<b", "k > 1", "0:n<m"]))
         return self.hot(site, rng.choice(["merge(2,3,k<l)", "n>m", "2*n, 3", "size(a)<b", "k > 1",
                                           "MERGE(2,3,K<L)", "N>M", "Size(A)<B"]))
 
@@ -553,49 +894,98 @@ class ProjGen:
             lit = "'" + rng.choice(["a\\\\b", "a\\nb", "a\\db", "x\\"]) + "'"
         return lit
 
+    def attr_statement(self, attr, names):
+        """one attribute statement giving `attr` to the names: `attr :: a, b` or `attr a, b`
+        (`dimension(X)` is written `dimension a(X), b(X)`, a deferred-shape `allocatable` / `pointer` likewise)"""
+        rng = self.rng
+        m = re.fullmatch(r"(dimension|allocatable|pointer)(\(.*\))", attr, re.S)
+        if m:
+            kw, ents = self.kw(m.group(1)), [self.respell(n) + m.group(2) for n in names]
+        elif attr.startswith("intent("):
+            kw = self.kw("intent") + rng.choice(["(", " (", "( "]) + self.kw(attr[7:-1]) + rng.choice([")", " )"])
+            ents = [self.respell(n) for n in names]
+        else:
+            kw, ents = self.kw(attr), [self.respell(n) for n in names]
+        return kw + rng.choice([" :: ", " ", "::", "  ", " ::", ":: "]) + rng.choice([", ", ","]).join(ents)
+
     def var_decl(self, names, ctx, pages=()):
-        """ctx: 'module' | 'type' | 'local' | 'arg'; pages: where the rows must appear"""
+        """ctx: 'module' | 'type' | 'local' | 'arg'; pages: where the rows must appear.
+        Returns the source lines: the type declaration and - for some declarations outside derived types - the
+        attribute statements that give part of the attributes (`intent(in) :: a`, `dimension a(n)`, `optional a`,
+        `value a`, `target :: a`, `private a` ...), before or after the type declaration"""
         rng = self.rng
         ty = self.type_spec()
-        attrs = []
+        use_stmt = ctx != "type" and rng.random() < 0.4
+        mv = (lambda: use_stmt and rng.random() < 0.6)  # this attribute is given by a separate statement
+        attrs, moved = [], []
         if ctx == "arg":
-            attrs.append(rng.choice(["intent(in)", "intent(out)", "intent(inout)", "intent(in)"]))
+            it = rng.choice(["intent(in)", "intent(out)", "intent(inout)", "intent(in)"])
+            (moved if mv() else attrs).append(it)
             if rng.random() < 0.3:
-                attrs.append("optional")
+                (moved if mv() else attrs).append("optional")
             if rng.random() < 0.3:
-                attrs.append(f"dimension({self.dim_expr('dimattr')})")
+                st = mv()
+                (moved if st else attrs).append(f"dimension({self.dim_expr('dimstmt' if st else 'dimattr')})")
+            elif use_stmt and it == "intent(in)" and "optional" not in attrs + moved and rng.random() < 0.4:
+                moved.append("value")
+            if use_stmt and rng.random() < 0.3:
+                moved.append(rng.choice(["target", "volatile", "asynchronous"]))
         else:
             if ctx == "module" and rng.random() < 0.3:
-                attrs.append(rng.choice(["public", "private", "protected"]))
+                (moved if mv() else attrs).append(rng.choice(["public", "private", "protected"]))
             if ctx != "type" and rng.random() < 0.4:
                 attrs.append("parameter")
             elif rng.random() < 0.3:
-                attrs.append(rng.choice(["allocatable", "target", "save"] if ctx != "type" else ["allocatable"]))
-            if rng.random() < 0.2 and "allocatable" not in attrs:
-                attrs.append(f"dimension({self.dim_expr('dimattr')})")
+                (moved if mv() else attrs).append(rng.choice(["allocatable", "target", "save"] if ctx != "type" else ["allocatable"]))
+            if rng.random() < 0.2 and "allocatable" not in attrs + moved:
+                st = mv()
+                (moved if st else attrs).append(f"dimension({self.dim_expr('dimstmt' if st else 'dimattr')})")
+            if use_stmt and "parameter" not in attrs and rng.random() < 0.3:
+                x = rng.choice(["volatile", "asynchronous", "save", "target"])
+                if x not in attrs + moved:
+                    moved.append(x)
+        if use_stmt and "parameter" not in attrs and not any(a.startswith("dimension") for a in attrs + moved) \
+                and "allocatable" not in attrs + moved and "value" not in moved and rng.random() < 0.15:
+            # deferred shape given in an ALLOCATABLE / POINTER statement: `allocatable :: x(:)`
+            moved.append(rng.choice(["allocatable", "pointer"]) + rng.choice(["(:)", "(:, :)"]))
+        rng.shuffle(moved)
         ents = []
-        perm = next((a for a in attrs if a in ("public", "private", "protected")), "public")
-        other = [a for a in attrs if a not in ("public", "private", "protected", "optional", "parameter")
-                 and not a.startswith("intent(")]
+        everything = attrs + moved
+        perm = next((a for a in everything if a in ("public", "private", "protected")), "public")
+        fields = ("public", "private", "protected", "optional", "parameter")
+        other = [a for a in attrs if a not in fields and not a.startswith("intent(")]
+        # attributes of statements are displayed after those of the declaration (`optional` too: only the
+        # declaration's own `optional` has a column); where exactly is not compared (mode "canon")
+        other += [a for a in moved if a not in ("public", "private", "protected") and not a.startswith("intent(")]
         # the source spells the keywords in any case (the rows are compared case-insensitively outside literals)
         src_attrs = [self.kw("dimension") + a[9:] if a.startswith("dimension(") else self.kw(a) for a in attrs]
+        has_dim = any(re.match(r"(dimension|allocatable|pointer)\(", a) for a in everything)
         for nm in names:
-            e = nm
             dim = ini = ""
-            if rng.random() < 0.3 and not any(a.startswith("dimension") for a in attrs):
+            if rng.random() < 0.3 and not has_dim:
                 dim = f"({self.dim_expr('dim')})"
             if ctx != "arg" and ("parameter" in attrs or rng.random() < 0.5):
                 ini = "=" + self.init_expr()
             ents.append(nm + dim + (rng.choice([" = ", "="]) + ini[1:] if ini else ""))
             # what the row must say (FORD's column order: type, visibility / intent, optional, parameter, attributes)
             if ctx == "arg":
-                parts = [ty, next(a for a in attrs if a.startswith("intent("))] + (["optional"] if "optional" in attrs else [])
+                parts = [ty, next(a for a in everything if a.startswith("intent("))] + (["optional"] if "optional" in attrs else [])
             else:
                 parts = [ty, perm] + (["parameter"] if "parameter" in attrs else [])
             row = ",".join(parts + other) + "::" + nm + dim + (ini if ctx != "arg" else "")
             for pg in pages:
-                self.expect.append((pg, row))
-        return ty + "".join(", " + a for a in src_attrs) + " :: " + ", ".join(ents)
+                self.expect.append((pg, row, "canon" if moved else "exact", frozenset()))
+        lines = [ty + "".join(", " + a for a in src_attrs) + " :: " + ", ".join(ents)]
+        before, after = [], []
+        for a in moved:
+            key = f"{ctx}:{re.sub(r'[(].*', '', a, flags=re.S)}"
+            self.stmt_hist[key] = self.stmt_hist.get(key, 0) + 1
+            groups = [list(names)] if rng.random() < 0.7 else [[n] for n in names]
+            for g in groups:
+                (before if rng.random() < 0.25 else after).append(self.attr_statement(a, g))
+        if moved:
+            self.stmt_decls.append((ctx, tuple(sorted(re.sub(r"[(].*", "", a, flags=re.S) for a in moved))))
+        return before + lines + after
 
     def module(self, k):
         rng = self.rng
@@ -613,14 +1003,14 @@ class ProjGen:
 
         mp, tp, sp, fp = f"module/m{k}.html", f"type/tt{k}.html", f"proc/s{k}.html", f"proc/f{k}.html"
         for _ in range(rng.randint(5, 8)):
-            L.append("  " + self.var_decl(names(rng.choice([1, 1, 2])), "module", [mp]))
+            L += ["  " + x for x in self.var_decl(names(rng.choice([1, 1, 2])), "module", [mp])]
         # attribute statements: the other path on which the literals cut out of a statement are put back
         # (ATTRIB branch of the container loop): BIND and PARAMETER statements
         if rng.random() < 0.4:
             g = names(1)[0]
             b = f"{self.kw('bind')}({self.kw('c')}, {self.kw('name')}={self.hot('bindattr', self.bind_literal(), literal=True)})"
             L += [f"  {self.kw('integer')} :: {g}", f"  {b} :: {g}"]
-            self.expect.append((mp, f"integer,public,{b.replace(' ', '')}::{g}"))
+            self.expect.append((mp, f"integer,public,{b.replace(' ', '')}::{g}", "exact", frozenset()))
         if rng.random() < 0.35:
             pz = names(1)[0]
             if rng.random() < 0.6:
@@ -628,46 +1018,86 @@ class ProjGen:
             else:
                 val = self.hot("paramstmt", rng.choice(["n+1", "merge(1, 2, k<l)", "A<B", "2*N", "size(x)<m"]))
             L += [f"  {self.kw('character(len=8)')} :: {pz}", f"  {self.kw('parameter')} ({pz} = {val})"]
-            self.expect.append((mp, f"character(len=8),public,parameter::{pz}={val}"))
+            self.expect.append((mp, f"character(len=8),public,parameter::{pz}={val}", "exact", frozenset()))
         L.append(f"  type :: tt{k}")
         for _ in range(rng.randint(1, 3)):
-            L.append("    " + self.var_decl(names(1), "type", [mp, tp]))
+            L += ["    " + x for x in self.var_decl(names(1), "type", [mp, tp])]
         L.append(f"  end type tt{k}")
         if rng.random() < 0.6:
             ev = rng.choice(["3", "7"]) if rng.random() < 0.85 else self.hot("enum", rng.choice(["merge(1,2,k<l)", "4*(a<b)", "ishft(1, 2)", "7_c_int"]))
             L += ["  " + self.kw("enum, bind(c)"), f"    {self.kw('enumerator')} :: e{k}a = 1, e{k}b = {ev}", "  end enum"]
-            self.expect.append((mp, f"enumerator::e{k}b={ev}"))
+            self.expect.append((mp, f"enumerator::e{k}b={ev}", "exact", frozenset()))
         L.append("contains")
         # subroutine with bind name
         a = names(2)
         bind = ""
         if rng.random() < 0.6:
             bind = f" {self.kw('bind')}({self.kw('c')}, {self.kw('name')}={self.hot('bind', self.bind_literal(), literal=True)})"
-        L.append(f"  {self.kw('subroutine')} s{k}({a[0]}, {a[1]}){bind}")
+        # a dummy procedure described by an interface block (displayed as a nested procedure, not as a variable row)
+        cb = [f"cb{k}"] if rng.random() < 0.12 else []
+        hdr = ", ".join(self.respell(x) for x in a + cb)
+        L.append(f"  {self.kw('subroutine')} s{k}({hdr}){bind}")
         for pg in (mp, sp):
-            self.expect.append((pg, f"publicsubroutines{k}({a[0]},{a[1]})" + bind.replace(" ", "")))
-        L.append("    " + self.var_decl(a[:1], "arg", [mp, sp]))
-        L.append("    " + self.var_decl(a[1:], "arg", [mp, sp]))
+            self.expect.append((pg, f"publicsubroutines{k}({hdr})".replace(" ", "") + bind.replace(" ", ""), "exact", frozenset()))
+        if rng.random() < 0.25:
+            # both dummy arguments in one declaration (attribute statements may then name one or both)
+            L += ["    " + x for x in self.var_decl(a, "arg", [mp, sp])]
+        else:
+            L += ["    " + x for x in self.var_decl(a[:1], "arg", [mp, sp])]
+            L += ["    " + x for x in self.var_decl(a[1:], "arg", [mp, sp])]
+        if cb:
+            L += ["    " + x for x in [self.kw("interface"), f"  {self.kw('subroutine')} {self.respell(cb[0])}(zcb)",
+                                       f"    {self.kw('real')}, {self.kw('intent(in)')} :: zcb",
+                                       f"  end subroutine {cb[0]}", "end interface"]]
+            if rng.random() < 0.5:
+                st = rng.choice(["optional", "optional", "private"])
+                L.append("    " + self.attr_statement(st, cb))
+                self.stmt_hist["interface-dummy:" + st] = self.stmt_hist.get("interface-dummy:" + st, 0) + 1
+                if st != "private":
+                    # decidable on the input: an attribute statement other than a visibility / BIND names a procedure
+                    # that is described by an interface block of the same unit
+                    self.drop_tags.setdefault(k, set()).add("C18-attribute-statement-on-interface-procedure")
         for _ in range(rng.randint(1, 2)):
-            L.append("    " + self.var_decl(names(1), "local", [sp]))
+            L += ["    " + x for x in self.var_decl(names(1), "local", [sp])]
         nl = names(2)
-        L.append("    " + self.var_decl(nl[:1], "local", [sp]))
-        L.append("    " + self.var_decl(nl[1:], "local", [sp]))
+        L += ["    " + x for x in self.var_decl(nl[:1], "local", [sp])]
+        L += ["    " + x for x in self.var_decl(nl[1:], "local", [sp])]
         L.append(f"    {self.kw('namelist')} /nl{k}/ {nl[0]}, {nl[1]}")
         L.append(f"  end subroutine s{k}")
+        # function: the result is named by a RESULT clause or is the function name; its type is given by a type
+        # declaration in the body or in the FUNCTION statement (then attributes can only come from separate statements)
         a = names(1)
-        r_ = names(1)[0]
-        L.append(f"  {self.kw('function')} f{k}({a[0]}) {self.kw('result')}({r_})")
-        for pg in (mp, fp):
-            self.expect.append((pg, f"publicfunctionf{k}({a[0]})result({r_})"))
-        L.append("    " + self.var_decl(a, "arg", [mp, fp]))
+        form = rng.choice(["result", "result", "result", "name", "typed", "typed-result"])
+        r_ = names(1)[0] if form in ("result", "typed-result") else f"f{k}"
         rty = self.type_spec(allow_char=False)
-        rattr = [self.kw(x) for x in rng.choice([[], [], ["dimension(2)"], ["allocatable", "dimension(:)"], ["target"]])]
-        rdim = "(3)" if not rattr and rng.random() < 0.4 else ""
-        L.append(f"    {rty}" + "".join(", " + x for x in rattr) + f" :: {r_}{rdim}")
+        typed = form.startswith("typed")
+        clause = f" {self.kw('result')}({r_})" if form in ("result", "typed-result") else ""
+        L.append(f"  {rty + ' ' if typed else ''}{self.kw('function')} f{k}({self.respell(a[0])}){clause}")
+        r_decl = self.respell(r_)  # the spelling of the result's name in its type declaration
+        # decidable on the input: no RESULT clause, the result declared in the body under the function's name in
+        # another letter case (without the option `lower`, which makes all names lower-case)
+        htag = ["result-name-recased"] if form == "name" and r_decl != r_ and not self.lower else []
         for pg in (mp, fp):
-            self.expect.append((pg, "ReturnValue" + ",".join([rty] + rattr + ([rdim] if rdim else []))))
-        L.append("    " + self.var_decl(names(1), "local", [fp]))
+            self.expect.append((pg, f"publicfunctionf{k}({a[0]})" + (f"result({r_})" if clause else ""), "exact", frozenset(htag)))
+        L += ["    " + x for x in self.var_decl(a, "arg", [mp, fp])]
+        rall = rng.choice([[], [], ["dimension(2)"], ["allocatable", "dimension(:)"], ["target"]])
+        # the result variable may get its attributes from separate statements too (`dimension r(2)`, `target r`)
+        rmoved = list(rall) if typed else ([x for x in rall if rng.random() < 0.6] if rng.random() < 0.35 else [])
+        rattr = [self.kw(x) for x in rall if x not in rmoved]
+        rdim = "(3)" if not rall and not typed and rng.random() < 0.4 else ""
+        rlines = [] if typed else [f"{rty}" + "".join(", " + x for x in rattr) + f" :: {r_decl}{rdim}"]
+        for x in rmoved:
+            key = ("typed-result:" if typed else "result:") + x.split("(")[0]
+            self.stmt_hist[key] = self.stmt_hist.get(key, 0) + 1
+            rlines.insert(0 if rng.random() < 0.25 else len(rlines), self.attr_statement(x, [r_]))
+        if rmoved:
+            self.stmt_decls.append(("typed-result" if typed else "result", tuple(sorted(x.split("(")[0] for x in rmoved))))
+        L += ["    " + x for x in rlines]
+        rtag = [] if not rmoved else ["typed-result-statement-attribute" if typed else "result-statement-attribute"]
+        for pg in (mp, fp):
+            self.expect.append((pg, "ReturnValue" + ",".join([rty] + rattr + rmoved + ([rdim] if rdim else [])),
+                                "canon" if rmoved else "exact", frozenset(rtag)))
+        L += ["    " + x for x in self.var_decl(names(1), "local", [fp])]
         L.append(f"    {r_} = {r_}")
         L.append(f"  end function f{k}")
         L.append(f"end module m{k}")
@@ -736,7 +1166,8 @@ def expected_text(neutral_text: str, byid, lower=False) -> str:
     return PID_RE.sub(sub, neutral_text)
 
 
-def e2e_stream(ford, rng, nproj, rep, seed, cov):
+def e2e_stream(ford, rng, nproj, rep, seed, cov, cleanup_steps=None):
+    cleanup_steps = cleanup_steps or {}
     evaluations = 0
     distinct = set()
     site_hist: dict[str, int] = {}
@@ -744,6 +1175,7 @@ def e2e_stream(ford, rng, nproj, rep, seed, cov):
     page_hist: dict[str, int] = {}
     fail_hist: dict[str, int] = {}
     opt_hist: dict[str, int] = {}
+    stmt_hist: dict[str, int] = {}
     case_hist = {"hot_texts_with_capitals": 0, "literals_with_capitals_under_lower": 0, "code_with_capitals_under_lower": 0}
     samples = []
     with common.scratch_dir() as d:
@@ -767,6 +1199,10 @@ def e2e_stream(ford, rng, nproj, rep, seed, cov):
                 rep.tie_broken(f"e2e: FORD failed on the neutral twin of project {pi}: {nr['exc']} {nr['log'][-300:]}",
                                {"stream": "e2e", "options": opts, "files": neutral})
                 continue
+            for k_, v_ in gen.stmt_hist.items():
+                stmt_hist[k_] = stmt_hist.get(k_, 0) + v_
+            for sd in gen.stmt_decls:
+                distinct.add(common.digest(["attribute-statements", list(sd[:1]) + list(sd[1])]))
             for h in gen.hots:
                 site_hist[h.site] = site_hist.get(h.site, 0) + 1
                 if re.search(r"[A-Z]", h.text):
@@ -786,7 +1222,7 @@ def e2e_stream(ford, rng, nproj, rep, seed, cov):
                 evaluations += 1
                 if not (ndoc / "module" / f"m{k}.html").exists():
                     hs = [h for h in gen.hots if h.mod == k and h.drops_file(twin=True)]
-                    cls = sorted({h.drops_file(twin=True) for h in hs})
+                    cls = sorted({h.drops_file(twin=True) for h in hs} | gen.drop_tags.get(k, set()))
                     fid = cls[0] if cls else None
                     fail_hist[fid or "unclassified"] = fail_hist.get(fid or "unclassified", 0) + 1
                     rep.failing_input({"stream": "e2e", "page": f"module/m{k}.html", "item": "module of the neutral twin",
@@ -801,7 +1237,7 @@ def e2e_stream(ford, rng, nproj, rep, seed, cov):
                 # pages of this project are no longer comparable with the twin
                 for k in dropped or [0]:
                     hs = [h for h in gen.hots if h.mod == k or not dropped]
-                    cls = sorted({h.drops_file() for h in hs if h.drops_file()})
+                    cls = sorted({h.drops_file() for h in hs if h.drops_file()} | gen.drop_tags.get(k, set()))
                     evaluations += 1
                     fid = cls[0] if cls else None
                     fail_hist[fid or "unclassified"] = fail_hist.get(fid or "unclassified", 0) + 1
@@ -826,20 +1262,38 @@ def e2e_stream(ford, rng, nproj, rep, seed, cov):
                 # absolute part of the oracle: the twin's rows say what the declarations say
                 # (letter case of code is not part of what a Fortran declaration says; that of literals is)
                 have = {squeeze(tx, fold=True) for _, tx, _ in n_items}
-                for pg, row in gen.expect:
+                have_canon = None
+                for pg, row, mode, tags in gen.expect:
                     if pg == str(rel):
                         evaluations += 1
                         want = squeeze(gen.render([row], True).strip("\n"), fold=True)
-                        if want not in have:
+                        if mode == "canon":
+                            if have_canon is None:
+                                have_canon = {canon_row(x) for x in have}
+                            found = canon_row(want) in have_canon
+                        else:
+                            found = want in have
+                        if not found:
                             near = difflib.get_close_matches(want, list(have), n=1)
                             hs = [byid[p_] for p_ in PID_RE.findall(gen.render([row], True)) if p_ in byid]
                             cls = sorted({h.known_class(twin=True) for h in hs} - {None})
+                            # decidable on the input: a function result that is given an attribute by a separate
+                            # attribute statement, its type being declared in the body / in the FUNCTION statement
+                            if "result-statement-attribute" in tags and "matchResult" in cleanup_steps.get("func", []) and \
+                                    cleanup_steps["func"].index("matchResult") < cleanup_steps["func"].index("attribs"):
+                                cls = sorted(set(cls) | {"C18-result-attribute-statements-lost"})
+                            if "typed-result-statement-attribute" in tags:
+                                cls = sorted(set(cls) | {"C18-typed-result-attribute-statements-lost"})
+                            if "result-name-recased" in tags:
+                                cls = sorted(set(cls) | {"C18-result-clause-invented"})
                             fid = cls[0] if cls else None
                             fail_hist[fid or "twin-row"] = fail_hist.get(fid or "twin-row", 0) + 1
                             rep.failing_input({"stream": "e2e", "page": str(rel), "item": "row of the neutral twin",
                                                "expected_text": want, "observed_text": near[0] if near else None,
                                                "why": "no row/heading of the page says what the declaration says "
-                                                      "(type, visibility/intent, optional, parameter, attributes :: name dimension = initial)",
+                                                      "(type, visibility/intent, optional, parameter, attributes :: name dimension = initial"
+                                                      + ("; attributes partly given by separate attribute statements: compared as a set)"
+                                                         if mode == "canon" else ")"),
                                                "source_texts": [{"site": h.site, "text": h.neutral} for h in hs],
                                                "options": opts, "files": neutral}, fid)
                 r_items, r_tags = page_items(rdoc / rel)
@@ -885,6 +1339,7 @@ def e2e_stream(ford, rng, nproj, rep, seed, cov):
                                     "row_observed": got_items[min(3, len(got_items) - 1)][1][:200] if got_items else None})
     cov.update(e2e_options=dict(sorted(opt_hist.items())), e2e_letter_case=case_hist,
                e2e_site_histogram=dict(sorted(site_hist.items())),
+               e2e_attribute_statements=dict(sorted(stmt_hist.items())),
                e2e_known_class_inputs=dict(sorted(class_hist.items())),
                e2e_pages=dict(sorted(page_hist.items())),
                e2e_failing_items=dict(sorted(fail_hist.items())))
@@ -902,6 +1357,7 @@ def run(tier: str, seed: int, replay: str | None = None) -> int:
     def translate():
         sites, auto = tr.translate()
         table["sites"], table["auto"] = len(sites), auto
+        table["cleanup"] = dict(tr.CLEANUP)
 
     lean = lean_prove(PROP, translate=translate, thorough=(tier == "thorough"))
     for b in lean.broken():
@@ -912,21 +1368,27 @@ def run(tier: str, seed: int, replay: str | None = None) -> int:
     n_micro = 1500 if tier == "quick" else 15000
     n_decl = 1200 if tier == "quick" else 12000
     n_proj = 45 if tier == "quick" else 600
+    n_cu = 400 if tier == "quick" else 4000
     auto = table.get("auto", False)
     ev_micro, bad_micro, unsup, micro_hist = micro_streams(ford, drv, rng, n_micro, rep, auto)
     ev_decl, bad_decl, decl_hist, _ = decl_stream(ford, drv, rng, n_decl, rep)
+    ev_cu, bad_cu, cu_hist = cleanup_stream(ford, drv, random.Random(seed * 15485863 + 18), n_cu, rep, table.get("cleanup", {}))
     cov: dict = {}
-    ev_e2e, distinct, samples = e2e_stream(ford, random.Random(seed * 104729 + 18), n_proj, rep, seed, cov)
+    ev_e2e, distinct, samples = e2e_stream(ford, random.Random(seed * 104729 + 18), n_proj, rep, seed, cov, table.get("cleanup", {}))
     drv.close()
     rep.coverage.update(
-        evaluations=ev_micro + ev_decl + ev_e2e,
+        evaluations=ev_micro + ev_decl + ev_cu + ev_e2e,
         distinct_nontrivial=len(distinct),
         rule="e2e: one evaluation per declaration row / heading per page; non-trivial = a hot source text containing one of "
              "< > & \" ' \\ or repeated blanks, distinct by (site, text), or a capital letter in a project built with "
-             "`lower: true`, distinct by (site, text)",
+             "`lower: true`, distinct by (site, text), or a declaration (module variable, local, dummy argument, function "
+             "result) part of whose attributes is given by separate attribute statements, distinct by (context, attributes)",
         samples=samples,
-        traces_validated_against_impl=ev_micro + ev_decl,
-        correspondence_disagreements=bad_micro + bad_decl,
+        traces_validated_against_impl=ev_micro + ev_decl + ev_cu,
+        correspondence_disagreements=bad_micro + bad_decl + bad_cu,
+        cleanup_histogram=cu_hist,
+        variant_interface_entries_accept_attributes=probe_item_attr_tolerant(),
+        cleanup_step_order=table.get("cleanup"),
         micro_requests=micro_hist,
         micro_skipped_group_reference=unsup,
         decl_histogram=decl_hist,
@@ -938,6 +1400,10 @@ def run(tier: str, seed: int, replay: str | None = None) -> int:
         "what a reader sees is approximated by an HTML parse (html.parser / BeautifulSoup); browsers are out of scope",
         "re.sub group references (\\1, \\g<0>) and octal escapes in undoubled templates are not modelled (skipped, counted)",
         "fixed-form sources, continuation lines inside literals and preprocessing are outside this property's streams",
+        "rows of entities that receive attributes from separate attribute statements are compared as type + set of attributes "
+        "(no single source statement gives their order); `dimension(X)`, `allocatable(X)` / `pointer(X)` and `name(X)` are read as the "
+        "same shape; array specs of DIMENSION / ALLOCATABLE / POINTER statements are generated lower-case and without character "
+        "literals (FORD stores them lower-cased whatever the option `lower` says)",
         "letter case: sources are ASCII; code is compared case-insensitively in the absolute part of the oracle (Fortran is "
         "case-insensitive), character literals exactly; with `lower: true` the expected code is the source's lower-cased",
     ]
